@@ -100,7 +100,7 @@ def generate(rng, tier):
 
 class M:
     def __init__(self, spec, n, idx):
-        self.model = Model()
+        self.model = Model(seed=20260927)
         self.ref = RefWorld(spec)
         self.env = make_world(self.model, spec)
         self.agents = [Agent(f"m{idx}a{k}", self.model) for k in range(n)]
